@@ -222,3 +222,33 @@ Proof. exact wf_surface_not_enough. Qed.
 
 Print Assumptions c07_desugar_output_wf_core. Print Assumptions c07_desugar_output_no_agg.
 Print Assumptions c07_example_wf_binding. Print Assumptions c07_example_output_wf_core. Print Assumptions c07_wf_surface_not_enough.
+
+(* ================= the CODE GENERATED for a negated clause, over every kind of index =================
+   `!r(args)` is `agg () = not() in r(args)` (c07_negation); Syntax/NegIndexModel.v models the code the macro emits for
+   that aggregate clause (`index_get(key)` : Option<iterator>, `.into_iter().flatten()`, `not`) over the two kinds of
+   answer an index gives for a key without rows: None (hash indices, keyed BYODS views) and Some(empty iterator) (the
+   key-less `[]` index of ascent_par! — CRelNoIndex — and of every BYODS provider).  Proofs: Syntax/NegIndexLaws.v. *)
+From AV Require Import Syntax.NegIndexModel.
+From AV Require Import Syntax.NegIndexLaws.
+(* the generated code IS the direct denotation of the negation, whatever index serves the relation ([neg_key] = the
+   non-wildcard argument positions with their values: the index key; rows have the arity of the clause) *)
+Theorem c07_negation_code_every_index : forall I db e r args kv k,
+  neg_key I e args 0 = Some kv -> (forall t, In t (db r) -> List.length t = List.length args) -> kind_ok k kv ->
+  item_envs I db (INeg r args) e = if neg_code k kv (db r) then [e] else [].
+Proof. exact neg_code_denotes. Qed.
+Theorem c07_negation_code_spec : forall k kv rows, kind_ok k kv -> neg_code k kv rows = neg_spec kv rows.
+Proof. exact neg_code_spec. Qed.
+(* the short cut `index_get(key).is_none()` is the same decision over hash indices ... *)
+Theorem c07_negation_is_none_hash_only : forall kv rows, neg_fast_path IxHash kv rows = neg_spec kv rows.
+Proof. exact neg_fast_path_hash. Qed.
+(* ... and REFUTED over a key-less index: an all-wildcard negation of an EMPTY relation would come out false *)
+Theorem c07_negation_is_none_refuted :
+  exists k kv rows, kind_ok k kv /\ neg_fast_path k kv rows <> neg_spec kv rows /\ neg_code k kv rows = neg_spec kv rows.
+Proof. exact neg_fast_path_refuted. Qed.
+Theorem c07_negation_is_none_keyless : forall rows,
+  neg_fast_path IxKeyless [] rows = false /\ (neg_spec [] rows = true <-> rows = []).
+Proof. exact neg_fast_path_keyless. Qed.
+
+Print Assumptions c07_negation_code_every_index. Print Assumptions c07_negation_code_spec.
+Print Assumptions c07_negation_is_none_hash_only. Print Assumptions c07_negation_is_none_refuted.
+Print Assumptions c07_negation_is_none_keyless.
